@@ -125,33 +125,12 @@ func c01Dispatch(p *Prog, r *Report, e *engine) {
 		r.Fail("D2-once", hf.key+":extractor-loop", p.Pos(disp.Pos()), "the dispatch is not inside a loop over the configured extractors")
 		return
 	}
-	// loop ranges over wc.extractors with index phi starting at -1 stepping +1 compared to len
+	// the loop visits every element of wc.extractors from the first, and the dispatched extractor is
+	// the current element
 	okRange := false
-	if ifi := blockIf(hdr); ifi != nil {
-		if op, x, y, ok := cmpNorm(ifi.Cond); ok && op == token.LSS {
-			if bo, ok := x.(*ssa.BinOp); ok && bo.Op == token.ADD {
-				if ph, ok := bo.X.(*ssa.Phi); ok {
-					if c, ok := constInt(bo.Y); ok && c == 1 {
-						init := false
-						for _, ed := range ph.Edges {
-							if k, ok := constInt(ed); ok && k == -1 {
-								init = true
-							} else if ed != ssa.Value(bo) {
-								init = false
-								break
-							}
-						}
-						if lc, ok := y.(*ssa.Call); ok && isCallTo(lc, "builtin", "", "len") && loadsField(lc.Call.Args[0], "walkContext", "extractors") && init {
-							// the extractor value is element [idx] of that slice
-							if u, ok := stripIface(disp.Call.Args[1]).(*ssa.UnOp); ok {
-								if ia, ok := u.X.(*ssa.IndexAddr); ok && ia.Index == ssa.Value(bo) && ia.X == lc.Call.Args[0] {
-									okRange = true
-								}
-							}
-						}
-					}
-				}
-			}
+	if coll, ok := fullScanElement(stripIface(disp.Call.Args[1])); ok && loadsField(coll, "walkContext", "extractors") {
+		if c2, _, ok := loopScansAll(hdr); ok && (c2 == coll || renderValueDeep(c2) == renderValueDeep(coll)) {
+			okRange = true
 		}
 	}
 	r.Check(okRange, "D2-once", hf.key+":extractor-loop", p.Pos(disp.Pos()), "for _, ex := range wc.extractors (all elements, from the first)", "the dispatch loop does not range over every configured extractor from the first one")
@@ -488,23 +467,8 @@ func c01Attribution(p *Prog, r *Report, e *engine) {
 	w := findPath(Point{hdr, -1}, instrIs(app), nil, nil)
 	w2 := findPath(pointOf(ext), instrIs(app), firstInstrOf(hdr), nil)
 	r.Check(w != nil && w2 == nil, "D6-attribution", re.key+":before-append", p.Pos(app.Pos()), "attribution loop precedes Append on every path", "results can be appended without passing the attribution loop")
-	// range pattern: index phi from -1 step 1 < len(results.Packages)
-	okRange := false
-	if ifi != nil {
-		if op, x, y, ok := cmpNorm(ifi.Cond); ok && op == token.LSS {
-			if lc, ok := y.(*ssa.Call); ok && isCallTo(lc, "builtin", "", "len") {
-				if bo, ok := x.(*ssa.BinOp); ok && bo.Op == token.ADD {
-					if ph, ok := bo.X.(*ssa.Phi); ok {
-						for _, ed := range ph.Edges {
-							if k, ok := constInt(ed); ok && k == -1 {
-								okRange = true
-							}
-						}
-					}
-				}
-			}
-		}
-	}
+	// the loop visits every package of the result from the first
+	_, _, okRange := loopScansAll(hdr)
 	r.Check(okRange, "D6-attribution", re.key+":range-all", p.Pos(attr.Pos()), "range over all packages", "the attribution loop does not range over all packages of the result")
 
 	// D6-scan: Scan: sro.Inventory = filesystem.Run result #0; sro.Inventory.Append(standalone result #0)
